@@ -344,6 +344,9 @@ def run(prog, chk):
     chk.floor("R14.2", "Display loops", nl, 8)
 
     field_coverage_rule(prog, chk, disp)
+    grammar_order_rule(prog, chk, disp)
+    exported_function_reader_rule(prog, chk)
+    redirect_fd_table_rule(prog, chk)
     heredoc_rule(prog, chk, disp)
 
     # ---- R14.3 single printer ------------------------------------------------------------------------------
@@ -540,3 +543,192 @@ def heredoc_rule(prog, chk, disp):
                  % ", ".join("%s prints %s indented" % (a.rsplit("::", 1)[-1], b2.rsplit("::", 1)[-1]) for a, b2 in offenders[:4]))
     else:
         chk.ok("R14.5", "heredoc-not-indented", "no indenting adaptor between FunctionDefinition and IoHereDocument", function=hd.name)
+
+
+REDIRECT_KIND = "brush_parser::ast::IoFileRedirectKind"
+REF_DEFAULT_FD = {"Read": 0, "Write": 1, "Append": 1, "ReadAndWrite": 0, "Clobber": 1, "DuplicateInput": 0, "DuplicateOutput": 1}
+
+
+def _kind_fd_table(prog, b):
+    """variant -> constant integer stored into the return place, for a body that switches on IoFileRedirectKind"""
+    from dataflow import const_value
+    out = {}
+    d = defs_of(b)
+    for sbb, m, other, rest, _ in enum_switches(prog, b, REDIRECT_KIND):
+        tg = dict(m)
+        for r in rest:
+            tg[r] = other
+        for v, t in tg.items():
+            x = t
+            for _ in range(5):
+                if x is None:
+                    break
+                val = None
+                for st in b.blocks[x].stmts:
+                    if st.kind == 'a' and st.place.is_local() and st.place.local == 0 and st.rv.kind == 'use':
+                        val = const_value(b, d, st.rv.ops[0])
+                if val is not None:
+                    out[v] = val
+                    break
+                tt = b.blocks[x].term
+                if tt.kind != "goto":
+                    break
+                x = tt.target
+    return out
+
+
+def grammar_order_rule(prog, chk, disp):
+    """R14.6: a node's printer writes its parts in the order the grammar reads them. For every grammar rule whose action builds a struct
+    node from labelled sub-rules (`timed:… bang:… seq:… { ast::Pipeline { timed, bang: …, seq } }`) the first read of each field in the
+    node's Display impl must not come strictly before the first read of a field the grammar binds earlier. `time ! cmd` printed as
+    `! time cmd` re-parses as a negated command called `time`."""
+    chk.rule("R14.6", "Display writes the fields of a struct node in the order in which the grammar rule that builds the node binds them")
+    g = list(peg.load(os.path.join(REPO, "brush-parser/src/parser/peg.rs")).values())[0]
+    npairs = 0
+    for rname, toks in g.items():
+        alts = peg.split_alternatives(toks) if hasattr(peg, "split_alternatives") else [toks]
+        for alt in alts:
+            els = peg.elements(alt)
+            labels = [e.get("label") for e in els if e.get("label")]
+            text = " ".join(t.text for t in alt)
+            for m in re.finditer(r"ast :: (\w+) \{([^{}]*)\}", text):
+                T = AST + m.group(1)
+                adt = prog.adts.get(T)
+                if not adt or adt["kind"] != "struct" or T not in disp:
+                    continue
+                fields = [f["name"] for f in adt["variants"][0]["fields"]]
+                f2l = {}
+                for part in m.group(2).split(","):
+                    part = part.strip()
+                    mm = re.match(r"(\w+) : (\w+)", part)
+                    if mm and mm.group(1) in fields:
+                        src = mm.group(2)
+                        if src not in labels:
+                            lm = re.search(r"let (?:mut )?%s = ([^;]*);" % re.escape(src), text)
+                            if lm:
+                                used = [l for l in labels if re.search(r"\b%s\b" % re.escape(l), lm.group(1))]
+                                src = used[0] if used else src
+                        f2l[mm.group(1)] = src
+                    elif part in fields:
+                        f2l[part] = part
+                order = [f for f in sorted(f2l, key=lambda f: labels.index(f2l[f]) if f2l[f] in labels else 99) if f2l[f] in labels]
+                if len(order) < 2:
+                    continue
+                b = disp[T]
+                c = cfg_of(b)
+                selfs = _self_aliases(b)
+                fr = {}
+                for bl in b.blocks:
+                    if bl.cleanup or bl.idx not in c.reach:
+                        continue
+                    places = []
+                    for st in bl.stmts:
+                        if st.kind == 'a':
+                            if st.rv.place is not None:
+                                places.append(st.rv.place)
+                            places += [o.place for o in st.rv.ops if o.place is not None]
+                    t = bl.term
+                    places += [a.place for a in t.args if a.place is not None]
+                    if t.kind == 'switch' and t.discr.place is not None:
+                        places.append(t.discr.place)
+                    for pl in places:
+                        if pl.local in selfs:
+                            for pr in pl.proj:
+                                if pr[0] == 'f':
+                                    fr.setdefault(pr[3], []).append(bl.idx)
+                                    break
+                for i, a in enumerate(order):
+                    for later in order[i + 1:]:
+                        if a not in fr or later not in fr:
+                            continue
+                        npairs += 1
+                        viol = any(all(c.dominates(x, y) and x != y for y in fr[a]) for x in fr[later])
+                        if viol:
+                            chk.fail("R14.6", b.name, "printed-out-of-grammar-order:%s.%s<%s" % (T.rsplit("::", 1)[-1], later, a),
+                                     "Display for %s writes `%s` before `%s`, but rule `%s` of the grammar reads `%s` first: the printed text is parsed as something "
+                                     "else (or not at all) when it is read back" % (T.rsplit("::", 1)[-1], later, a, rname, a))
+                        else:
+                            chk.ok("R14.6", "order:%s.%s<%s" % (T.rsplit("::", 1)[-1], a, later), "printed in grammar order", function=b.name)
+    chk.floor("R14.6", "ordered field pairs compared", npairs, 12)
+
+
+def exported_function_reader_rule(prog, chk):
+    """R14.7: the reader of BASH_FUNC_name%% accepts whatever the writer emits. The writer is `format!("() {}", body)` where body may
+    start with any compound command; a reader that first tests the value with starts_with(<literal>) may only use a literal that is a
+    prefix of the writer's fixed prefix `() `."""
+    from dataflow import flow_back
+    chk.rule("R14.7", "the import of exported functions applies no prefix filter stricter than the exporter's fixed prefix `() `")
+    wb = prog.impl_body("brush_core::commands::compose_std_command")
+    prefix = None
+    if chk.anchor("R14.7", "compose_std_command", wb):
+        for bb, t in wb.calls():
+            sn = t.snip or ""
+            m = re.search(r'format!\s*\(\s*"(\(\)[^"{]*)\{\}', sn)
+            if m:
+                prefix = m.group(1)
+    if prefix is None:
+        chk.fail("R14.7", "brush_core::commands::compose_std_command", "writer-prefix-not-found", "the BASH_FUNC value is no longer written as format!(\"() {}\", …)", nontrivial=False)
+        return
+    rb = prog.impl_body("brush_core::wellknownvars::inherit_env_vars")
+    if not chk.anchor("R14.7", "inherit_env_vars", rb):
+        return
+    d = defs_of(rb)
+    tests = 0
+    for bb, t in rb.calls():
+        cal = t.best_callee() or t.callee or ""
+        if not cal.endswith(("str::starts_with", "str::strip_prefix")):
+            continue
+        lits = []
+        for a in t.args[1:]:
+            for f in flow_back(rb, d, a, all_args=True):
+                if f.kind != 'const':
+                    continue
+                if f.node.string is not None:
+                    lits.append(f.node.string)
+                elif f.node.def_path:
+                    # a named constant: its value is read from the item's source text (`const NAME: &str = "…";`)
+                    nm = f.node.def_path.rsplit("::", 1)[-1]
+                    val = None
+                    for root, _dirs, files in os.walk(os.path.join(REPO, "brush-core/src")):
+                        for fnm in files:
+                            if fnm.endswith(".rs"):
+                                mm = re.search(r'const\s+%s\s*:\s*&(?:\'static\s+)?str\s*=\s*"((?:[^"\\\\]|\\\\.)*)"' % re.escape(nm), open(os.path.join(root, fnm), errors="replace").read())
+                                if mm:
+                                    val = mm.group(1)
+                    lits.append(val if val is not None else "<unresolved constant %s>" % nm)
+        for lit in lits:
+            if lit.startswith("BASH_FUNC") or lit == "%%":
+                continue
+            tests += 1
+            if prefix.startswith(lit):
+                chk.ok("R14.7", "reader-prefix:%r" % lit, "a prefix of the writer's %r" % prefix, function=rb.name)
+            else:
+                chk.fail("R14.7", rb.name, "reader-stricter-than-writer",
+                         "inherit_env_vars only accepts BASH_FUNC values starting with %r, but the exporter writes %r followed by the printed body, which begins with "
+                         "`(`, `for`, `if`, … for functions whose body is not a brace group: such exported functions silently never arrive in a child shell" % (lit, prefix))
+    if tests == 0:
+        chk.ok("R14.7", "reader-unfiltered", "the value is handed to the parser without a prefix filter (writer prefix %r)" % prefix, function=rb.name)
+
+
+def redirect_fd_table_rule(prog, chk):
+    """R14.8: every table from redirection operator to its implied descriptor agrees with the interpreter's (and POSIX): `<` `<>` `<&` → 0,
+    `>` `>>` `>|` `>&` → 1. A printer that omits "redundant" descriptors using a different table changes what the printed text means."""
+    chk.rule("R14.8", "all IoFileRedirectKind → implied-descriptor tables in the workspace equal the reference (Read/ReadAndWrite/DuplicateInput → 0, others → 1)")
+    n = 0
+    for b in prog.all_bodies(SHIPPED):
+        if b.kind in ("closure", "coroutine"):
+            continue
+        tab = _kind_fd_table(prog, b)
+        if len(tab) < 4:
+            continue
+        n += 1
+        bad = {k: v for k, v in tab.items() if k in REF_DEFAULT_FD and v != REF_DEFAULT_FD[k]}
+        fn = owner(b.name)
+        if bad:
+            chk.fail("R14.8", fn, "implied-fd-table-differs:" + ",".join(sorted(bad)),
+                     "%s maps %s, the interpreter (and POSIX) use %s: a redirection printed or interpreted with this table lands on another descriptor — "
+                     "`1<>file` printed as `<> file` re-reads as opening the file on descriptor 0"
+                     % (fn, ", ".join("%s→%s" % kv for kv in sorted(bad.items())), ", ".join("%s→%s" % (k, REF_DEFAULT_FD[k]) for k in sorted(bad))))
+        else:
+            chk.ok("R14.8", "fd-table@" + fn.rsplit("::", 1)[-1], "%d variants, equal to the reference" % len(tab), function=fn)
+    chk.floor("R14.8", "operator → descriptor tables found", n, 1)
